@@ -35,6 +35,7 @@ type engine struct {
 	funcs     map[string]*ssa.Function
 	pureRe    []*regexp.Regexp
 	loadErrs  []string
+	recvLocks map[*ssa.Function]map[string]bool
 }
 
 func (e *engine) noop() {}
